@@ -395,10 +395,12 @@ def index_forest(forest):
     return idx
 
 
-def substitute_real_meta(forest, step_mtimes, real_meta):
+def substitute_real_meta(forest, step_mtimes, real_meta, model_hash=None, real_hash=None):
     """Replace the model's METADATA answers for outputs written in this step (which carry this
     step's deterministic mtime) by the metadata of the real file after the build: if the library
     legitimately reused the file in place it still has its old mtime."""
+    model_hash = model_hash or {}
+    real_hash = real_hash or {}
     for root in forest:
         for n in root.walk():
             for i, e in enumerate(n.events):
@@ -408,6 +410,12 @@ def substitute_real_meta(forest, step_mtimes, real_meta):
                     p = e[2]
                     if p in step_mtimes and e[4][2] == step_mtimes[p] and p in real_meta:
                         n.events[i] = ('q', 'read', p, e[3], ('META',) + tuple(real_meta[p]))
+                elif e[1] == 'read' and isinstance(e[4], tuple) and e[4][0] == 'HASH' and real_hash:
+                    # an output that was legitimately kept although its content had been edited with
+                    # preserved metadata (METADATA integrity) is read back with its real content
+                    p = e[2]
+                    if p in real_hash and p in model_hash and e[4][1] == model_hash[p]:
+                        n.events[i] = ('q', 'read', p, e[3], ('HASH', real_hash[p]))
 
 
 def events_equal(a, b):
